@@ -1863,7 +1863,7 @@ func (vs *c33Viols) add(w *c33Witness) {
 	defer vs.mu.Unlock()
 	vs.count[w.Key]++
 	b := vs.best[w.Key]
-	if b == nil || w.WIdx < b.WIdx || (w.WIdx == b.WIdx && (w.Prefix < b.Prefix || (w.Prefix == b.Prefix && w.Rank < b.Rank))) {
+	if b == nil || w.WIdx < b.WIdx || (w.WIdx == b.WIdx && (w.Prefix < b.Prefix || (w.Prefix == b.Prefix && (w.Rank < b.Rank || (w.Rank == b.Rank && w.What < b.What))))) {
 		vs.best[w.Key] = w
 	}
 }
@@ -2010,6 +2010,7 @@ const c33ProductCap = 400
 
 type c33Stats struct {
 	mu              sync.Mutex
+	continued       int64
 	productPrefixes int64
 	boundedPrefixes int64
 	enumerated  int64
@@ -2077,33 +2078,88 @@ func c33Recover(j *c33Job, vs *c33Viols, st *c33Stats, curFile string) {
 			// the same for every way of losing the index entry
 			suffix = "segment-durable-index-entry-missing-or-torn"
 		}
+		if class == "acked-commit-lost-after-recovery" {
+			if d, ok := snapshot.files[c33DataDir+"/groups.log"]; ok {
+				if _, valid := readEntries(d.data); valid < len(d.data) {
+					suffix = "torn-groups-log-tail-not-truncated"
+				}
+			}
+		}
 		vs.add(&c33Witness{Key: prefixKey + class + ":" + suffix, What: fmt.Sprintf("workload %s, crash after op %d/%d [%s] (%s), loss pattern %s: %s", l.name, j.prefix, len(l.fs.log), c33LastOp(l, j.prefix), c33StepAt(l, j.prefix), j.pattern, what),
 			Workload: l.name, WIdx: j.widx, Prefix: j.prefix, Rank: j.rank, Artefact: artefact(extra)})
 	}
+	// Recovery runs on a recording copy of the crash state so that a second
+	// crash (after the recovered cluster acknowledged more work) can be
+	// materialised as well.
+	rfs := snapshot.clone()
+	rfs.rec = true
 	done := make(chan struct{})
 	var (
-		n    *c33Node
-		err  error
-		obs  *c33Obs
-		oerr error
+		err   error
+		obs   *c33Obs
+		oerr  error
+		post  *c33Post
+		obs3  []*c33Obs
+		err3  error
+		extra []c33V
 	)
 	go func() {
 		defer close(done)
-		n, err = c33Start(j.fsys, l.extra)
+		var n *c33Node
+		n, err = c33Start(rfs, l.extra)
 		if err != nil {
 			return
 		}
 		obs, oerr = c33Observe(n, l.ref, false)
+		if oerr == nil && j.variant == "" {
+			post, extra = c33Continue(n, l.ref, obs, j.prefix)
+		}
+		cut := rfs.logLen()
 		n.close()
+		if post == nil || len(extra) > 0 {
+			return
+		}
+		// second crash: everything acknowledged by the recovered cluster was
+		// fsynced, so both "unsynced data lost" and "kept" must retain it
+		rep := c33ReplayFrom(snapshot)
+		for _, o := range rfs.log[:cut] {
+			rep.apply(o, false)
+		}
+		seen := map[uint64]bool{}
+		for _, baseAll := range []bool{false, true} {
+			f3 := rep.materialise(0, c33Choice{}, baseAll)
+			if h := f3.hash(); seen[h] {
+				continue
+			} else {
+				seen[h] = true
+			}
+			n3, e := c33Start(f3, l.extra)
+			if e != nil {
+				err3 = e
+				return
+			}
+			o3, e := c33Observe(n3, post.ref, false)
+			n3.close()
+			if e != nil {
+				err3 = e
+				return
+			}
+			obs3 = append(obs3, o3)
+		}
 	}()
 	select {
 	case <-done:
-	case <-time.After(60 * time.Second):
-		report("recovery-hang", "recovery did not finish within 60s", nil)
+	case <-time.After(120 * time.Second):
+		report("recovery-hang", "recovery did not finish within 120s", nil)
 		return
 	}
 	st.mu.Lock()
 	st.recovered++
+	if post != nil {
+		st.continued++
+		st.recovered += int64(len(obs3))
+		st.transitions += int64(post.ops)
+	}
 	st.mu.Unlock()
 	if err != nil {
 		cls := "startup-error"
@@ -2124,11 +2180,193 @@ func c33Recover(j *c33Job, vs *c33Viols, st *c33Stats, curFile string) {
 	for _, x := range viols {
 		report(x.Class, x.What, map[string]any{"observed": obs})
 	}
+	for _, x := range extra {
+		report(x.Class, x.What, map[string]any{"observed": obs})
+	}
+	if err3 != nil {
+		report("second-recovery-failed", "after recovery + acknowledged work + a second crash, NewCluster/observation failed: "+err3.Error(), map[string]any{"observed": obs, "post": post.desc})
+	}
+	for _, o3 := range obs3 {
+		for _, x := range c33CheckPost(obs, post, o3) {
+			report(x.Class, x.What, map[string]any{"observed_after_first_recovery": obs, "acknowledged_by_recovered_cluster": post.desc, "observed_after_second_crash": o3})
+		}
+	}
 	oh := fnv.New64a()
 	oh.Write([]byte(c33Canon(obs)))
 	st.mu.Lock()
 	st.outcomes[oh.Sum64()] = struct{}{}
 	st.mu.Unlock()
+}
+
+// c33ReplayFrom starts a replay from an existing (fully durable) file system.
+func c33ReplayFrom(m *c33FS) *c33Replay {
+	r := c33NewReplay()
+	for d := range m.dirs {
+		r.dirs[d] = true
+	}
+	for p, d := range m.files {
+		r.files[p] = d.id
+		r.ino(d.id).durable = bytes.Clone(d.data)
+	}
+	return r
+}
+
+// c33Post is the work a recovered cluster acknowledged before the second crash.
+type c33Post struct {
+	ref     *c33Ref // topics + groups to observe after the second crash
+	batches map[string][]byte
+	bases   map[string]int64
+	commits map[string]c33OffObs
+	desc    []string
+	ops     int
+}
+
+// c33Continue uses the recovered cluster: one plain produce per readable
+// partition and one offset commit per group (the workload's groups plus a new
+// one). Everything must be accepted.
+func c33Continue(n *c33Node, ref *c33Ref, obs *c33Obs, prefix int) (*c33Post, []c33V) {
+	post := &c33Post{ref: c33NewRef(), batches: map[string][]byte{}, bases: map[string]int64{}, commits: map[string]c33OffObs{}}
+	var vs []c33V
+	var tps []string
+	for _, t := range ref.Topics {
+		to, ok := obs.Topics[t.Name]
+		if !ok {
+			continue
+		}
+		post.ref.Topics = append(post.ref.Topics, t)
+		for p := 0; p < to.Parts; p++ {
+			tp := c33TPKey(t.Name, int32(p))
+			if po := obs.Parts[tp]; po != nil && po.Err == "" {
+				tps = append(tps, tp)
+			}
+		}
+	}
+	for _, tp := range tps {
+		t, part := c33SplitTP(tp)
+		raw := c33BuildBatch("post-"+tp, -1, -1, -1, 1, false)
+		base, ec, err := c33ProduceRaw(n.cl, t, part, raw, nil)
+		post.ops++
+		if err != nil || ec != 0 {
+			vs = append(vs, c33V{"post-recovery-produce-rejected", fmt.Sprintf("%s: a plain produce to the recovered cluster failed: err=%v code=%v", tp, err, kerr.ErrorForCode(ec))})
+			continue
+		}
+		if base != obs.Parts[tp].HWM {
+			vs = append(vs, c33V{"log-not-contiguous", fmt.Sprintf("%s: produce to the recovered cluster was assigned offset %d but the high watermark was %d", tp, base, obs.Parts[tp].HWM)})
+		}
+		post.batches[tp] = raw
+		post.bases[tp] = base
+		post.desc = append(post.desc, fmt.Sprintf("produce %s -> offset %d acknowledged", tp, base))
+	}
+	if len(tps) > 0 {
+		groups := append(append([]string{}, ref.Groups...), "c33-post")
+		for gi, g := range groups {
+			tp := tps[gi%len(tps)]
+			t, part := c33SplitTP(tp)
+			req := kmsg.NewPtrOffsetCommitRequest()
+			req.Group = g
+			req.Generation = -1
+			rt := kmsg.NewOffsetCommitRequestTopic()
+			rt.Topic = t
+			rp := kmsg.NewOffsetCommitRequestTopicPartition()
+			rp.Partition = part
+			rp.Offset = int64(100000 + prefix)
+			rp.LeaderEpoch = -1
+			rp.Metadata = c33Str("post-recovery")
+			rt.Partitions = append(rt.Partitions, rp)
+			req.Topics = append(req.Topics, rt)
+			ctx, cancel := c33Ctx()
+			resp, err := req.RequestWith(ctx, n.cl)
+			cancel()
+			post.ops++
+			if err != nil || len(resp.Topics) != 1 || len(resp.Topics[0].Partitions) != 1 || resp.Topics[0].Partitions[0].ErrorCode != 0 {
+				vs = append(vs, c33V{"post-recovery-commit-rejected", fmt.Sprintf("group %s %s: an offset commit to the recovered cluster failed: err=%v resp=%+v", g, tp, err, resp)})
+				continue
+			}
+			post.commits[g+"|"+tp] = c33OffObs{rp.Offset, "post-recovery"}
+			post.desc = append(post.desc, fmt.Sprintf("commit %s %s -> %d acknowledged", g, tp, rp.Offset))
+		}
+		post.ref.Groups = groups
+	}
+	return post, vs
+}
+
+// c33CheckPost: after the second crash the log must be what the first recovery
+// showed plus the batches the recovered cluster acknowledged, and the
+// acknowledged commits must be there.
+func c33CheckPost(obs *c33Obs, post *c33Post, o3 *c33Obs) (vs []c33V) {
+	v := func(class, format string, a ...any) { vs = append(vs, c33V{class, fmt.Sprintf(format, a...)}) }
+	for name := range obs.Topics {
+		if _, ok := o3.Topics[name]; !ok {
+			v("acked-topic-lost-after-recovery", "topic %s was present after the first recovery but is missing after the second crash", name)
+		}
+	}
+	tps := make([]string, 0, len(post.batches))
+	for tp := range post.batches {
+		tps = append(tps, tp)
+	}
+	sort.Strings(tps)
+	for _, tp := range tps {
+		p1, p3 := obs.Parts[tp], o3.Parts[tp]
+		if p3 == nil || p3.Err != "" {
+			v("acked-produce-lost-after-recovery", "%s: partition unreadable after the second crash (%v)", tp, p3)
+			continue
+		}
+		if p3.RUTrailing != 0 {
+			v("partial-batch-visible", "%s: %d trailing bytes after the second crash", tp, p3.RUTrailing)
+		}
+		// align on the first batch of the first recovery (the log start may
+		// legitimately move back on a full replay)
+		ru3 := p3.RU
+		if len(p1.RU) > 0 {
+			k := 0
+			for k < len(ru3) && ru3[k].First != p1.RU[0].First {
+				k++
+			}
+			ru3 = ru3[k:]
+		} else {
+			k := 0
+			for k < len(ru3) && ru3[k].First < post.bases[tp] {
+				k++
+			}
+			ru3 = ru3[k:]
+		}
+		want := len(p1.RU) + 1
+		if len(ru3) < want {
+			what := "the batch acknowledged by the recovered cluster"
+			if len(ru3) < len(p1.RU) {
+				what = "a batch that was visible after the first recovery"
+			}
+			v("acked-produce-lost-after-recovery", "%s: after the second crash the log holds %d of the expected %d batches (high watermark %d, expected %d): %s is missing", tp, len(ru3), want, p3.HWM, post.bases[tp]+1, what)
+			continue
+		}
+		ok := len(ru3) == want
+		for k := 0; ok && k < len(p1.RU); k++ {
+			ok = ru3[k].Hash == p1.RU[k].Hash && ru3[k].CRCOK
+		}
+		if ok {
+			nb := ru3[want-1]
+			raw := post.batches[tp]
+			ok = nb.CRCOK && nb.First == post.bases[tp] && len(nb.Raw) == len(raw) && bytes.Equal(nb.Raw[16:], raw[16:])
+		}
+		if !ok {
+			v("foreign-batch-visible-after-recovery", "%s: after the second crash the log is not (log after first recovery) + (batch acknowledged by the recovered cluster)", tp)
+			continue
+		}
+		if p3.HWM != post.bases[tp]+1 {
+			v("hwm-mismatch", "%s: high watermark %d after the second crash, expected %d", tp, p3.HWM, post.bases[tp]+1)
+		}
+	}
+	cks := make([]string, 0, len(post.commits))
+	for k := range post.commits {
+		cks = append(cks, k)
+	}
+	sort.Strings(cks)
+	for _, k := range cks {
+		if got, ok := o3.Offsets[k]; !ok || got != post.commits[k] {
+			v("acked-commit-lost-after-recovery", "%s: the recovered cluster acknowledged offset %d, after the second crash the committed offset is %v (present=%v)", k, post.commits[k].Offset, got, ok)
+		}
+	}
+	return vs
 }
 
 // c33IndexBehindSegment reports whether some segment file of the crash state
@@ -2524,7 +2762,7 @@ func c33Child() {
 		wg.Wait()
 	}
 
-	r.Rule("every prefix of the recorded fs-operation log of each workload (crash after operation i, all i) x loss patterns of data written after the last Sync of each file: {all kept, none kept, every proper prefix of the unsynced ops, the last kept write torn at byte 1 / middle / len-1}; across files: quick is deviation-bounded (one file deviates, the others all-kept or none-kept), thorough takes the full cartesian product whenever it has <= 400 combinations (else deviation-bounded; counted); directory operations durable in order (the source never syncs directories); thorough adds the variant where a rename not followed by any Sync is lost with all later namespace operations. A state is distinct by content hash of the materialised file system + the set of acknowledged/issued operations at that point; each distinct state is recovered by a fresh real cluster and read back through the protocol")
+	r.Rule("every prefix of the recorded fs-operation log of each workload (crash after operation i, all i) x loss patterns of data written after the last Sync of each file: {all kept, none kept, every proper prefix of the unsynced ops, the last kept write torn at byte 1 / middle / len-1}; across files: quick is deviation-bounded (one file deviates, the others all-kept or none-kept), thorough takes the full cartesian product whenever it has <= 400 combinations (else deviation-bounded; counted); directory operations durable in order (the source never syncs directories); thorough adds the variant where a rename not followed by any Sync is lost with all later namespace operations. A state is distinct by content hash of the materialised file system + the set of acknowledged/issued operations at that point; each distinct state is recovered by a fresh real cluster and read back through the protocol; the recovered cluster then acknowledges one produce per partition and one offset commit per group and is crashed again (all acknowledged data was fsynced; unsynced data lost / kept), and a third cluster must show the first recovery's log + the new batches and commits")
 	r.Assume("the response observed by the client is the acknowledgement; its ack point is the fs-log length when the response arrived (a Sync issued after sending the response but before the client observed it would be missed)",
 		"write/truncate of one file become durable in issue order (prefix loss + one torn write), fsync makes all earlier data operations of that inode durable",
 		"forEachPartition runs partition saves in goroutines: the interleaving of their fs operations in the recorded log is whatever this run produced",
@@ -2538,6 +2776,7 @@ func c33Child() {
 	r.Set("recoveries_on_real_implementation", st.recovered)
 	r.Set("distinct_recovered_outcomes", len(st.outcomes))
 	r.Set("states_by_pattern_kind", st.byKind)
+	r.Set("recovered_clusters_continued_and_crashed_again", st.continued)
 	r.Set("workloads", sums)
 	r.Set("prefixes_with_several_unsynced_files_full_product", st.productPrefixes)
 	r.Set("prefixes_with_several_unsynced_files_deviation_bounded", st.boundedPrefixes)
